@@ -16,6 +16,9 @@ def solve(p, shared=None):
     import numpy as np
     import dnachisel as dc
     try:
+        # the problem constructor may draw (constrain_sequence picks a random variant when the initial
+        # sequence is outside the mutation space): "same numpy seed" means seeded before construction
+        np.random.seed(p["np_seed"])
         if shared is None:
             problem = problems.build_problem(p)
         else:
@@ -62,6 +65,24 @@ def main():
             rng = random.Random(p["np_seed"])
             s2 = "".join(rng.choice("ACGT") for _ in p["seq"])
             solve(dict(p, seq=s2), shared=(cs, os_))
+            out.append(solve(p, shared=(cs, os_)))
+    elif mode == "after_failure":
+        # every shared specification object is first used, alone, in a problem that FAILS (a
+        # low-complexity sequence and a solver budget of one random iteration), then in the
+        # problem of interest
+        from harness import specs
+        for p in ps:
+            try:
+                cs = [specs.build_spec(d) for d in p["constraints"]]
+                os_ = [specs.build_spec(d) for d in p["objectives"]]
+            except Exception as e:  # noqa
+                out.append(["exc", type(e).__name__])
+                continue
+            n = len(p["seq"])
+            tiny = dict(p["cfg"], threshold=0, max_iters=1, mutations=1)
+            for c in cs:
+                for s2 in (("AT" * n)[:n], "A" * n, ("GC" * n)[:n]):
+                    solve(dict(p, seq=s2, cfg=tiny, np_seed=0), shared=([c], []))
             out.append(solve(p, shared=(cs, os_)))
     print(json.dumps(out))
 
